@@ -181,9 +181,26 @@ def load_known():
         return json.load(fh)
 
 
+def guard_resources():
+    """a check never hangs or exhausts the machine: address-space limit and wall-clock budget, both -> checker error"""
+    import resource
+    import signal
+    gb = float(os.environ.get("H8_MEM_GB", "24"))
+    try:
+        resource.setrlimit(resource.RLIMIT_AS, (int(gb * (1 << 30)), int(gb * (1 << 30))))
+    except (ValueError, OSError):
+        pass
+
+    def on_alarm(signum, frame):
+        raise TimeoutError("the check exceeded its wall-clock budget (H8_CHECK_BUDGET s)")
+    signal.signal(signal.SIGALRM, on_alarm)
+    signal.alarm(int(float(os.environ.get("H8_CHECK_BUDGET", "5400"))))
+
+
 def main(argv):
     if len(argv) >= 1 and argv[0] == "--setup":
         return setup()
+    guard_resources()
     if not argv:
         print(__doc__)
         return 2
